@@ -45,7 +45,7 @@ checks += [
     chk("C01", "routerlab+e2elab", "model_checking", rtext("registration/frame arrival orders, ready/pending+wake of every subscriber sink operation, publisher delays, ends and idleness, StreamMap start index") + "; list-model oracle: each healthy subscriber holds a contiguous suffix of the consumption log starting no later than its adoption, fully flushed", R_NOTE + "; server half (e2elab): a raw publisher whose byte stream reaches the real server in pieces (frames pipelined behind the registration before the Ok is read, one frame cut in two at every interesting offset): the subscriber must receive exactly the messages of that byte stream", R_TECH + " + enumeration of the cut points of a peer's byte stream over the real server", "DESIGN.md §3 C01, §5 C01/C02"),
     chk("C02", "routerlab+e2elab", "model_checking", rtext("request interleavings of 1-3 requestors with colliding request ids and forged tags, replier bind time, pending/wake on every sink and stream, all Router hash orders, adversarial reply scripts") + "; oracle: requests at most once / in order / correctly tagged / exactly once under a stable replier, each valid reply exactly once to its requestor and nowhere else, tag stripped, flushed", R_NOTE + "; server half (e2elab): a raw requestor whose byte stream reaches the real server in pieces (requests pipelined behind the registration, one request cut in two at every interesting offset) must receive exactly the replies to its requests", R_TECH + " + enumeration of the cut points of a peer's byte stream over the real server", "DESIGN.md §3 C02, §5 C01/C02"),
     chk("C08", "routerlab+e2elab", "model_checking", rtext("the C01/C02/C10 families with error answers enabled on every sink operation and error items / early ends on every stream, plus FanoutMany and Router driven directly with every answer vector") + "; oracle: no panic, healthy peers keep their full C01/C02 obligations, a failed replier is unbound and the next one serves", R_NOTE + "; at most one injected error per mock half; server half (e2elab): on the real server every victim role {subscriber, publisher, replier, requestor} x every failure a real QUIC peer can produce {connection close, STOP_SENDING, RESET_STREAM, both, dropped stream, graceful finish, half a frame then end} x moment {idle, mid-stream, while blocking the topic by not reading, request in flight, reply after death}: the healthy peers must receive exactly what is owed, a new replier must be bound and serve; scheduling there is not controlled", R_TECH + " + exhaustive victim x failure x moment matrix over the real server", "DESIGN.md §3 C08, §5 C08"),
-    chk("C09", "routerlab", "model_checking", rtext("all no-fault families of C01/C02/C10/C16 plus one-sided topologies (nobody, only subscribers, only publishers, only repliers, only requestors, replier leaves)") + "; oracles: step budget per poll (spin), 400-poll horizon (self-wake livelock), and a probe poll at every quiescent point that must make no observable progress (lost wake-up)", R_NOTE, R_TECH, "DESIGN.md §3 C09"),
+    chk("C09", "routerlab", "model_checking", rtext("all no-fault families of C01/C02/C10/C16 plus one-sided topologies (nobody, only subscribers, only publishers, only repliers, only requestors, replier leaves)") + "; oracles: step budget per poll (spin), 400-poll horizon (self-wake livelock), and a probe poll at every quiescent point that must make no observable progress (lost wake-up); plus one poll of each router with 30 000 (thorough 200 000) peers waiting in its registration channel, in a child process on a 2 MiB stack", R_NOTE, R_TECH, "DESIGN.md §3 C09"),
     chk("C10", "routerlab+e2elab", "model_checking", rtext("1-3 repliers registering at every point of an exchange, departures of the bound one, pending/wake of the rejected replier's sink, two late repliers in one poll") + "; oracle: never two bound, a rejection is justified by an earlier still-bound replier and consists of exactly one replier-already-bound error followed by a completed close, a replier registering after the bound one ended is bound and served", R_NOTE + "; server half (e2elab): a real second replier - opened from the same client as the bound one or from another, with or without a retry budget - keeps registering while 30 requests must all be answered by the bound one; a raw rival whose stream grants 9..1024 bytes of credit must be told Ok, replier-already-bound and then see its stream end", R_TECH + " + rival matrix over the real server and client", "DESIGN.md §3 C10, §5 C10"),
     chk("C11", "routerlab+e2elab", "model_checking", rtext("every non-Message frame kind as 1st/2nd request or as a reply, requests that fit the frame limit only before the routing tag is added, all 8 kinds through the pub/sub router, each followed by a well-formed exchange") + "; oracle: no panic and the following exchange satisfies C01/C02", R_NOTE + "; server half (e2elab): first frame of every kind x topic state {fresh, pub/sub, req/rep} must be served (exercised with helper peers) or refused with an error code, follow-up frames of every kind per role, and the real client's open() against a fake server answering with every frame kind or closing; scheduling there is not controlled, except that racing first registrations are also run against a server whose repeated and nested tokio-mutex acquisitions are stretched (seam in the vendored tokio)", R_TECH + " + exhaustive hostile-input matrix over the real server", "DESIGN.md §3 C11, §5 C11"),
     chk("C16", "routerlab+e2elab", "model_checking", rtext("close of the registration channel at every point of the pub/sub and req/rep families (idle, item buffered, flush pending, one side only, rejected replier pending) followed by every pending/wake outcome of the sinks") + "; oracle: the router future completes once every sink can accept data, and every frame taken from a publisher was handed over and flushed to every healthy subscriber first", R_NOTE + "; server half (e2elab): the real server in a child process is brought into 14 states by raw peers (incl. a registration parked on a peer that grants no flow-control credit, a slow subscriber whose router holds taken messages, and - SAMPLED, 16 repetitions quick / 48 thorough - a burst of 256 concurrent first registrations; and, not sampled, the same burst against a server whose nested and repeated tokio-mutex acquisitions are stretched by a seam in the vendored tokio), receives SIGINT and must exit with status 0 within 20 s having delivered what its routers had taken", R_TECH + " + state matrix with SIGINT on the real server process", "DESIGN.md §3 C16"),
@@ -56,9 +56,9 @@ E_TECH = "exhaustive enumeration of a finite configuration / fault-sequence matr
 checks += [
     chk("C03", "e2elab", "exploration", "every cell of codec x compression x batching (size, interval) x message count around the batch size x payload size is run end-to-end: real Subscriber attached via a warm-up barrier, real Publisher sends n items and finish(); the subscriber must yield exactly those items, in order, once; plus bulk cells (send_all under transport back-pressure), duplicate() taken mid-batch, the publisher's connection dropped right after finish(), an item over the frame limit refused between valid ones, items whose frame ends within a few bytes of the frame limit, and batches that exceed the frame limit as a whole", E_NOTE, E_TECH, "DESIGN.md §5 C03"),
     chk("C04", "e2elab", "exploration", "k concurrent request() calls over every set partition into requestor streams/clones, a raw scripted replier that first collects all k requests and then answers in every permutation leaving every subset unanswered, with late replies injected while a fresh request (same or re-opened stream) is in flight; every Ok must carry its own reply, every unanswered call must time out in [480 ms, 10.5 s]; plus an undecodable reply followed by further requests on the same handle / clones, reply frames without a usable request id arriving while requests are in flight, and requests that fail to be sent while clones queue behind a blocked send", E_NOTE, E_TECH, "DESIGN.md §5 C04"),
-    chk("C12", "e2elab", "fault_enumeration", "a scripted fake server cuts its connections after k items and answers re-registrations with f failures per outage, for every stream kind x k x number of successive outages x f x backoff x max attempts; per outage the re-registration frame must equal the original, the attempt count must be f+1 (max when all fail, 1 when unrecoverable) regardless of earlier outages, the stream must work again when f<max, and too-many-retries / the unrecoverable error must be reported instead of hanging; outages are produced by closing the connections, by a UDP relay dropping every packet until both sides time out, or gracefully (stream finished, then the connection closed); failing attempts fail by an error frame, by a second cut, or (repliers) by Ok followed by replier-already-bound; plus publishers with unflushed data at the cut, cloned requestors, every protocol error code as the answer to a re-registration, and a 60-attempt budget with capped exponential(10) delays", E_NOTE, "exhaustive fault-sequence enumeration against the real client through a scripted fake server", "DESIGN.md §5 C12"),
+    chk("C12", "e2elab", "fault_enumeration", "a scripted fake server cuts its connections after k items and answers re-registrations with f failures per outage, for every stream kind x k x number of successive outages x f x backoff x max attempts; per outage the re-registration frame must equal the original, the attempt count must be f+1 (max when all fail, 1 when unrecoverable) regardless of earlier outages, the stream must work again when f<max, and too-many-retries / the unrecoverable error must be reported instead of hanging; outages are produced by closing the connections, by a UDP relay dropping every packet until both sides time out, or gracefully (stream finished, then the connection closed); failing attempts fail by an error frame, by a second cut, or (repliers) by Ok followed by replier-already-bound; plus publishers with unflushed data at the cut, cloned requestors, every protocol error code as the answer to a re-registration, a 60-attempt budget with capped exponential(10) delays, and two streams of one client (one shared connection) through an outage", E_NOTE, "exhaustive fault-sequence enumeration against the real client through a scripted fake server", "DESIGN.md §5 C12"),
     chk("C15", "e2elab", "exploration", "all 4 server configurations (CA used to verify clients x CA of the presented certificate) x client trust store x client identity {trusted-CA, other-CA, self-signed, none} x {real client library, raw peer}, sequentially in a forward and a backward order within one process, with the bundled generator's certificate set as the trusted world; a registration must be answered Ok iff both certificates chain to the CA the other side was configured with; plus identities given as PEM bundles, servers started with CA files that hold no usable trust anchor (must refuse to start or certify nobody), the generator re-run into directories that already hold a set, one client configuration used against two servers of one process, and a certified client after 300 refused peers", E_NOTE + "; cryptographic strength is out of scope", "exhaustive enumeration of the finite identity/configuration matrix", "DESIGN.md §5 C15"),
-    chk("C17", "e2elab", "fault_enumeration", "per cell a fresh real server whose topic A is stalled by a never-reading subscriber and a flooding publisher, N further registrations on A for N around the router's queue capacity (99,100,101,102,150,...) in both orders relative to the stall, then the flooding client itself (same connection) and a fresh real client must round-trip a message on topic B and on a topic that shares its last component with A, within 20 s; the stall is produced in both the pub/sub and the request/reply pattern; plus peers that grant the server no flow-control credit on the stream they register on", E_NOTE, "exhaustive enumeration of the fault parameter (queued registrations x order) over the real server", "DESIGN.md §5 C17"),
+    chk("C17", "e2elab", "fault_enumeration", "per cell a fresh real server whose topic A is stalled by a never-reading subscriber and a flooding publisher, N further registrations on A for N around the router's queue capacity (99,100,101,102,150,...) in both orders relative to the stall, then the flooding client itself (same connection) and a fresh real client must round-trip a message on topic B and on a topic that shares its last component with A, within 20 s; the stall is produced in both the pub/sub and the request/reply pattern; plus peers that grant the server no flow-control credit on the stream they register on, and a library client whose unread subscriptions on the stalled topic share a connection with its streams on other topics", E_NOTE, "exhaustive enumeration of the fault parameter (queued registrations x order) over the real server", "DESIGN.md §5 C17"),
 ]
 
 pending = {
